@@ -102,6 +102,13 @@ RegAt(pos, g) == LET b == BandOf(pos) IN Off(b) + ((pos - Off(b) + g) % Bands[b]
 Unrolled(s) == [j \in 1 .. s * T * Len(Bin) |->
                   LET g == (j - 1) \div Len(Bin)  k == ((j - 1) % Len(Bin)) + 1  c == Bin[k] IN
                   EntryAt(g, k, [i \in DOMAIN c.pos |-> RegAt(c.pos[i], g)])]
+\* an integer shift rotates the WHOLE register by that many positions after every time bin ("the register will shift by a step
+\* size of this integer"), in the direction of the default shift: for one band, shift 1 is the default shift
+RegAtInt(pos, g, sh) == (pos + sh * g) % Ntot
+UnrolledInt(sh) == [j \in 1 .. T * Len(Bin) |->
+                  LET g == (j - 1) \div Len(Bin)  k == ((j - 1) % Len(Bin)) + 1  c == Bin[k] IN
+                  EntryAt(g, k, [i \in DOMAIN c.pos |-> RegAtInt(c.pos[i], g, sh)])]
+IntShiftOneIsDefault == (NB = 1) => \A j \in 1 .. T * Len(Bin) : UnrolledInt(1)[j].modes = Unrolled(1)[j].modes
 \* space unrolling (single band, one shot): register index = pulse number
 SpaceUnrolled == [j \in 1 .. T * Len(Bin) |->
                   LET g == (j - 1) \div Len(Bin)  k == ((j - 1) % Len(Bin)) + 1  c == Bin[k] IN
@@ -162,6 +169,7 @@ EmitStatic == (EMIT /\ calls = << >>) =>
                   arrays |-> [i \in 1 .. NArrays |-> [t \in 1 .. T |-> Arr(i, t - 1)]],
                   rarrays |-> [i \in 1 .. NRArrays |-> [t \in 1 .. T |-> ArrR(i, t - 1)]],
                   explicit |-> [s \in 1 .. MaxShots |-> Explicit(s)],
+                  intshift |-> [sh \in 1 .. 3 |-> [j \in 1 .. T * Len(Bin) |-> UnrolledInt(sh)[j].modes]],
                   joint |-> JointState(1),
                   chain |-> [s \in 1 .. MaxShots |-> Chain(s)],
                   npulses |-> [s \in 1 .. MaxShots |-> NPulses(s)]]))
